@@ -21,6 +21,7 @@ func runC16(ctx *core.Ctx) {
 	ctx.Rule("U2", "rewrite scope: the script file is written in exactly one place, only when updates exist, as Format of the archive parsed in setup; the only store into that archive is to Data of an entry whose Name equals the update key; nothing stores to Comment, Name or Files", 3)
 	ctx.Rule("U3", "quoting at the update site: the stored body is NeedsQuote-negative or a successfully quoted value (C14.Q4)", 1)
 	needsQuoteExact(ctx, "U6", "U7")
+	parseFileRaw(ctx, "U9")
 	ctx.Rule("U8", "entry registration: in setup's loop over the archive's files every iteration stores scriptFiles[path] = entry Name, unconditionally, with the very path the entry's data is written to; cmp resolves its second argument through this map, so the update lands in the entry whose data is on disk (for two entries resolving to one path that is the later one)", 1)
 	ctx.Rule("U4", "a failure while applying updates is reported through T, never by the Fatalf sentinel outside a catch frame (C01.V11)", 1)
 
